@@ -6,6 +6,9 @@ import (
 	"encoding/binary"
 	"encoding/hex"
 	"fmt"
+	"io"
+	"os"
+	"path/filepath"
 	"sort"
 	"strings"
 	"sync/atomic"
@@ -13,6 +16,9 @@ import (
 
 	"github.com/google/uuid"
 	_ "github.com/mattn/go-sqlite3"
+	"github.com/spf13/viper"
+	wrgl "github.com/wrgl/wrgl/cmd/wrgl"
+	"github.com/wrgl/wrgl/pkg/local"
 	"github.com/wrgl/wrgl/pkg/objects"
 	objmock "github.com/wrgl/wrgl/pkg/objects/mock"
 	"github.com/wrgl/wrgl/pkg/ref"
@@ -260,15 +266,23 @@ type c14Log struct {
 }
 
 type c14Env struct {
-	db    *objmock.Store
+	db    objects.Store
 	sqldb *sql.DB
 	rs    *refsql.Store
-	me    uuid.UUID
-	old   uuid.UUID
-	other uuid.UUID
-	names []string
-	specs []c14Spec
-	flags int
+	// flags 2: a real repository directory (badger + sqlite file) driven through the commands
+	cli     bool
+	root    string
+	wrglDir string
+	rd      *local.RepoDir
+	// branches whose reflog already carries the transaction id before the first op (hist 4)
+	preLogged []bool
+	nRefs     int // staged refs of THE transaction at the baseline
+	me        uuid.UUID
+	old       uuid.UUID
+	other     uuid.UUID
+	names     []string
+	specs     []c14Spec
+	flags     int
 	// baseline (before the first op)
 	baseHeads [][]byte
 	baseLogs  [][]c14Log
@@ -338,15 +352,56 @@ func (e *c14Env) stage(id uuid.UUID, i, t int) []byte {
 	return sum
 }
 
-func c14NewEnv(flags int, specs []c14Spec) *c14Env {
-	name := fmt.Sprintf("file:c14_%d_%d.db?cache=shared&mode=memory", time.Now().UnixNano(), atomic.AddInt64(&c14Seq, 1))
-	sqldb, err := sql.Open("sqlite3", name)
-	c14Must(err)
-	for _, st := range refsql.CreateTableStmts {
-		_, err := sqldb.Exec(st)
+// openObj / closeObj: badger takes a directory lock, so in command mode the harness holds the
+// object store only between commands
+func (e *c14Env) openObj() {
+	if e.cli && e.db == nil {
+		db, err := e.rd.OpenObjectsStore()
 		c14Must(err)
+		e.db = db
 	}
-	e := &c14Env{db: objmock.NewStore(), sqldb: sqldb, rs: refsql.NewStore(sqldb), specs: specs, flags: flags}
+}
+
+func (e *c14Env) closeObj() {
+	if e.cli && e.db != nil {
+		c14Must(e.db.Close())
+		e.db = nil
+	}
+}
+
+func c14Cmd(args ...string) error {
+	cmd := wrgl.RootCmd()
+	cmd.SetOut(io.Discard)
+	cmd.SetErr(io.Discard)
+	cmd.SetArgs(args)
+	return cmd.Execute()
+}
+
+func c14NewEnv(ctx *Ctx, flags int, specs []c14Spec) *c14Env {
+	e := &c14Env{specs: specs, flags: flags}
+	if flags == 2 {
+		root, err := os.MkdirTemp(ctx.Tmp, "c14repo")
+		c14Must(err)
+		e.cli, e.root, e.wrglDir = true, root, filepath.Join(root, ".wrgl")
+		rd, err := local.NewRepoDir(e.wrglDir, "")
+		c14Must(err)
+		c14Must(rd.Init())
+		e.rd = rd
+		// the harness' own connection to the repository's sqlite file (observation, triggers)
+		sqldb, err := sql.Open("sqlite3", filepath.Join(e.wrglDir, "sqlite.db"))
+		c14Must(err)
+		e.sqldb, e.rs = sqldb, refsql.NewStore(sqldb)
+		e.openObj()
+	} else {
+		name := fmt.Sprintf("file:c14_%d_%d.db?cache=shared&mode=memory", time.Now().UnixNano(), atomic.AddInt64(&c14Seq, 1))
+		sqldb, err := sql.Open("sqlite3", name)
+		c14Must(err)
+		for _, st := range refsql.CreateTableStmts {
+			_, err := sqldb.Exec(st)
+			c14Must(err)
+		}
+		e.db, e.sqldb, e.rs = objmock.NewStore(), sqldb, refsql.NewStore(sqldb)
+	}
 	e.names = c14Names[:len(specs)]
 	base := func(i int) int { return 100 + 10*i }
 	for i, sp := range specs {
@@ -381,10 +436,24 @@ func c14NewEnv(flags int, specs []c14Spec) *c14Env {
 	e.other = *id3
 	e.stagedSum = make([][]byte, len(specs))
 	e.otherSum = make([][]byte, len(specs))
+	e.preLogged = make([]bool, len(specs))
+	for i, sp := range specs {
+		if sp.hist == 4 {
+			// two head updates logged with THE transaction's id (what a double-logging commit leaves)
+			for _, t := range []int{base(i) + 1, base(i) + 2} {
+				sum, com := e.saveCommit(t, e.head(i))
+				c14Must(ref.CommitHead(e.rs, e.names[i], sum, com, &e.me))
+			}
+			e.preLogged[i] = true
+		}
+	}
 	for i, sp := range specs {
 		if sp.staged >= 0 && flags != 1 {
 			e.stagedSum[i] = e.stage(e.me, i, sp.staged)
-			e.nStaged++
+			e.nRefs++
+			if !e.preLogged[i] {
+				e.nStaged++
+			}
 		}
 		if sp.other >= 0 {
 			e.otherSum[i] = e.stage(e.other, i, sp.other)
@@ -405,7 +474,14 @@ func c14NewEnv(flags int, specs []c14Spec) *c14Env {
 	return e
 }
 
-func (e *c14Env) close() { e.sqldb.Close() }
+func (e *c14Env) close() {
+	e.closeObj()
+	e.sqldb.Close()
+	if e.cli {
+		e.rd.Close()
+		os.RemoveAll(e.root)
+	}
+}
 
 func (e *c14Env) objCount() int {
 	m, err := e.db.Filter(nil)
@@ -543,8 +619,15 @@ func (e *c14Env) txRefTable(id uuid.UUID, i int) *xt.T {
 }
 
 func (e *c14Env) snapshot() *xt.T {
-	hs, ls, st, ot := xt.N(), xt.N(), xt.N(), xt.N()
+	hs, ls, st, ot, tl := xt.N(), xt.N(), xt.N(), xt.N(), xt.N()
+	txl, err := e.rs.GetTransactionLogs(e.me)
+	c14Must(err)
 	for i := range e.specs {
+		if rl, ok := txl[ref.HeadRef(e.names[i])]; ok {
+			tl.Add(e.optChain(rl.NewOID))
+		} else {
+			tl.Add(xt.N())
+		}
 		hs.Add(e.optChain(e.head(i)))
 		l := xt.N()
 		for _, en := range e.logs(i) {
@@ -562,7 +645,7 @@ func (e *c14Env) snapshot() *xt.T {
 		st.Add(e.txRefTable(e.me, i))
 		ot.Add(e.txRefTable(e.other, i))
 	}
-	return xt.N(hs, ls, st, ot)
+	return xt.N(hs, ls, st, ot, tl)
 }
 
 func (e *c14Env) moved() int {
@@ -575,7 +658,7 @@ func (e *c14Env) moved() int {
 	return n
 }
 
-func (e *c14Env) observe(errClass int, amb, tamb bool) *xt.T {
+func (e *c14Env) observe(errClass int, amb, tamb, damb bool) *xt.T {
 	mv := e.moved()
 	snap := xt.N()
 	sc := 0
@@ -584,7 +667,9 @@ func (e *c14Env) observe(errClass int, amb, tamb bool) *xt.T {
 			sc++
 		}
 	}
-	if ((mv == 0 && !tamb) || mv == e.nStaged) && (sc == 0 || sc == e.nStaged) {
+	status := e.status()
+	dpart := damb && status == 1
+	if ((mv == 0 && !tamb) || mv == e.nStaged) && (sc == 0 || sc == e.nRefs) && !dpart {
 		snap = xt.N(e.snapshot())
 	}
 	no := e.objCount() - e.baseObjs
@@ -594,7 +679,10 @@ func (e *c14Env) observe(errClass int, amb, tamb bool) *xt.T {
 	if tamb && mv != e.nStaged {
 		mv = 9
 	}
-	return xt.N(xt.LI(errClass), xt.N(xt.LI(mv), xt.LI(no), xt.LI(e.status()), xt.LI(sc)), snap)
+	if dpart {
+		sc = 9
+	}
+	return xt.N(xt.LI(errClass), xt.N(xt.LI(mv), xt.LI(no), xt.LI(status), xt.LI(sc)), snap)
 }
 
 // ---------------------------------------------------------------- oracle (independent of the model)
@@ -615,21 +703,29 @@ const c14NoLog = "reflog is not the old reflog plus one entry (old head, new hea
 const c14TriggerMsg = "c14 injected sql failure"
 
 // arm installs a trigger that makes one SQL statement inside SetWithLog of heads/<victim> fail
-func (e *c14Env) arm(half, victim int) {
-	name := "heads/nosuchbranch"
+func (e *c14Env) arm(kind, half, victim int) {
+	bname := "nosuchbranch"
 	if victim < len(e.names) {
-		name = ref.HeadRef(e.names[victim])
+		bname = e.names[victim]
 	}
-	q := strings.ReplaceAll(name, "'", "''")
+	quote := func(x string) string { return "'" + strings.ReplaceAll(x, "'", "''") + "'" }
+	idHex := quote(strings.ToUpper(hex.EncodeToString(e.me[:])))
 	body := " BEGIN SELECT RAISE(ABORT, '" + c14TriggerMsg + "'); END"
 	var stmts []string
-	if half == 0 {
-		stmts = []string{"CREATE TRIGGER c14_f1 BEFORE INSERT ON reflogs WHEN NEW.ref = '" + q + "'" + body}
-	} else {
+	switch {
+	case kind == 4 && half == 0:
+		stmts = []string{"CREATE TRIGGER c14_f1 BEFORE INSERT ON reflogs WHEN NEW.ref = " + quote(ref.HeadRef(bname)) + body}
+	case kind == 4 && half == 1:
 		stmts = []string{
-			"CREATE TRIGGER c14_f1 BEFORE INSERT ON refs WHEN NEW.name = '" + q + "'" + body,
-			"CREATE TRIGGER c14_f2 BEFORE UPDATE ON refs WHEN NEW.name = '" + q + "'" + body,
+			"CREATE TRIGGER c14_f1 BEFORE INSERT ON refs WHEN NEW.name = " + quote(ref.HeadRef(bname)) + body,
+			"CREATE TRIGGER c14_f2 BEFORE UPDATE ON refs WHEN NEW.name = " + quote(ref.HeadRef(bname)) + body,
 		}
+	case kind == 4: // the status flip
+		stmts = []string{"CREATE TRIGGER c14_f1 BEFORE UPDATE ON transactions WHEN hex(NEW.id) = " + idHex + body}
+	case kind == 5 && half == 0:
+		stmts = []string{"CREATE TRIGGER c14_f1 BEFORE DELETE ON refs WHEN OLD.name = " + quote(ref.TransactionRef(e.me.String(), bname)) + body}
+	default:
+		stmts = []string{"CREATE TRIGGER c14_f1 BEFORE DELETE ON transactions WHEN hex(OLD.id) = " + idHex + body}
 	}
 	for _, st := range stmts {
 		_, err := e.sqldb.Exec(st)
@@ -739,8 +835,24 @@ func (e *c14Env) checkState() Verdict {
 	}
 	if e.status() == 2 {
 		for i, st := range e.stagedNow() {
-			if st && (bytes.Equal(e.head(i), e.baseHeads[i]) || e.landed(i) != "") {
+			if st && !e.preLogged[i] && (bytes.Equal(e.head(i), e.baseHeads[i]) || e.landed(i) != "") {
 				return Fail("committed-but-partial", "transaction marked committed but staged branch %s has not landed (%d of %d landed)", e.names[i], nl, e.nStaged)
+			}
+		}
+	}
+	// GetTransactionLogs reports, per ref, the NEWEST reflog entry that carries the transaction id
+	if txl, err := e.rs.GetTransactionLogs(e.me); err == nil {
+		for i := range e.specs {
+			var newest []byte
+			for _, en := range e.logs(i) { // newest first
+				if bytes.Equal(en.txid, e.me[:]) {
+					newest = en.new
+					break
+				}
+			}
+			rl, ok := txl[ref.HeadRef(e.names[i])]
+			if (newest != nil) != ok || (ok && !bytes.Equal(rl.NewOID, newest)) {
+				return Fail("txlogs-not-newest", "GetTransactionLogs does not report the newest entry with the transaction id for %s", e.names[i])
 			}
 		}
 	}
@@ -798,7 +910,7 @@ func runC14(ctx *Ctx, c *xt.T) (*xt.T, Verdict) {
 	if len(specs) > len(c14Names) {
 		panic("c14: too many branches")
 	}
-	e := c14NewEnv(flags, specs)
+	e := c14NewEnv(ctx, flags, specs)
 	defer e.close()
 	out := xt.N()
 	v := OK()
@@ -809,7 +921,7 @@ func runC14(ctx *Ctx, c *xt.T) (*xt.T, Verdict) {
 	}
 	masked := false
 	faultedCommits := 0
-	tamb := false
+	tamb, damb := false, false
 	discardPending := false // a Discard of the in-progress transaction failed part-way
 	for opi, op := range c.Kids[2].Kids {
 		kind := int(op.Kids[0].N)
@@ -817,9 +929,18 @@ func runC14(ctx *Ctx, c *xt.T) (*xt.T, Verdict) {
 		if kind == 0 || kind == 4 {
 			faultedCommits++
 		}
-		if kind == 4 {
-			tamb = true
-			e.arm(int(op.Kids[1].N), int(op.Kids[2].N))
+		if kind == 4 || kind == 5 {
+			half := int(op.Kids[1].N)
+			if kind == 4 && half != 2 {
+				tamb = true
+			}
+			if kind == 5 && half == 0 {
+				damb = true
+			}
+			e.arm(kind, half, int(op.Kids[2].N))
+		}
+		if e.cli && (kind == 0 || kind == 2) {
+			panic("c14: store-call faults are not available through the commands")
 		}
 		if kind == 0 || kind == 2 {
 			f.mode = int(op.Kids[1].N)
@@ -838,16 +959,29 @@ func runC14(ctx *Ctx, c *xt.T) (*xt.T, Verdict) {
 		}
 		var err error
 		isCommit := kind == 0 || kind == 1 || kind == 4
-		if isCommit {
+		switch {
+		case e.cli:
+			// the COMMAND on the repository directory: it opens badger and sqlite itself
+			e.closeObj()
+			viper.Set("wrgl_dir", e.wrglDir)
+			sub := "discard"
+			if isCommit {
+				sub = "commit"
+			}
+			err = c14Cmd("transaction", sub, e.me.String())
+			e.openObj()
+		case isCommit:
 			_, err = transaction.Commit(db, rs, e.me)
-		} else {
+		default:
 			err = transaction.Discard(rs, e.me)
 		}
-		if kind == 4 {
+		if kind == 4 || kind == 5 {
 			e.disarm()
 			if err != nil && strings.Contains(err.Error(), c14TriggerMsg) {
 				f.fired = true
 			}
+		}
+		if kind == 4 && int(op.Kids[1].N) != 2 {
 			victim := int(op.Kids[2].N)
 			if f.fired && victim < len(specs) && (!bytes.Equal(headsBefore[victim], e.head(victim)) || !c14LogsEqual(logsBefore[victim], e.logs(victim))) {
 				bad(Fail("setwithlog-not-atomic", "a statement inside SetWithLog of heads/%s failed but its head or reflog changed", e.names[victim]))
@@ -883,7 +1017,7 @@ func runC14(ctx *Ctx, c *xt.T) (*xt.T, Verdict) {
 						bad(Fail("commit-ok-but-incomplete", "%s returned nil but the transaction is not marked committed", what))
 					}
 					for i := range specs {
-						if e.stagedSum[i] != nil && stagedBefore[i] {
+						if e.stagedSum[i] != nil && stagedBefore[i] && !e.preLogged[i] {
 							if why := e.landed(i); why != "" {
 								bad(Fail("commit-ok-but-incomplete", "%s returned nil but on %s: %s", what, e.names[i], why))
 							}
@@ -901,7 +1035,7 @@ func runC14(ctx *Ctx, c *xt.T) (*xt.T, Verdict) {
 					bad(Fail("diff-mismatch", "Diff after commit: %v", derr))
 				} else {
 					for i := range specs {
-						if e.stagedSum[i] == nil || !stagedBefore[i] {
+						if e.stagedSum[i] == nil || !stagedBefore[i] || e.preLogged[i] {
 							continue
 						}
 						d, ok := m[e.names[i]]
@@ -967,7 +1101,7 @@ func runC14(ctx *Ctx, c *xt.T) (*xt.T, Verdict) {
 		if masked {
 			ec = 3
 		}
-		out.Add(e.observe(ec, faultedCommits >= 2, tamb))
+		out.Add(e.observe(ec, faultedCommits >= 2, tamb, damb))
 	}
 	return out, v
 }
@@ -984,6 +1118,8 @@ func c14HeadTable(i int, sp c14Spec) int {
 		return -1
 	case sp.hist == 1:
 		return base
+	case sp.hist == 4:
+		return base + 2
 	}
 	return base + 1
 }
@@ -1028,6 +1164,35 @@ func (g *c14Gen) opCT(half, victim, k int) *xt.T {
 	return xt.N(xt.LI(4), xt.LI(half), xt.LI(victim), c14Perm(g.ctx, k))
 }
 
+func (g *c14Gen) opDT(half, victim, k int) *xt.T {
+	return xt.N(xt.LI(5), xt.LI(half), xt.LI(victim), c14Perm(g.ctx, k))
+}
+
+// the COMMANDS `wrgl transaction commit` / `discard` on a real repository (badger + sqlite): only
+// SQL-statement faults are available there; every ref write of every branch, the status flip, the
+// deletes of Discard; then the re-run through the command
+func (g *c14Gen) cliFamilies(tag string, specs []c14Spec, full bool) {
+	k := len(specs)
+	g.emit(tag, 2, specs, g.opC(k), g.opC(k), g.opD(k))
+	g.emit(tag, 2, specs, g.opCT(2, 0, k), g.opC(k), g.opC(k), g.opD(k))
+	for victim := 0; victim < k; victim++ {
+		for half := 0; half <= 1; half++ {
+			if full || half == 0 || g.ctx.Pick(2) == 0 {
+				g.emit(tag, 2, specs, g.opCT(half, victim, k), g.opC(k), g.opC(k), g.opD(k))
+				g.ctx.Count("cli_sql_statement_faults")
+			}
+		}
+		if full {
+			g.emit(tag, 2, specs, g.opCT(0, victim, k), g.opCT(1, victim, k), g.opD(k), g.opC(k))
+			g.emit(tag, 2, specs, g.opDT(0, victim, k), g.opD(k), g.opD(k))
+		}
+	}
+	g.emit(tag, 2, specs, g.opDT(1, 0, k), g.opD(k), g.opC(k))
+	if !full {
+		g.emit(tag, 2, specs, g.opDT(0, g.ctx.Pick(k), k), g.opD(k), g.opD(k))
+	}
+}
+
 func (g *c14Gen) emit(tag string, flags int, specs []c14Spec, ops ...*xt.T) {
 	bs := xt.N()
 	ns := 0
@@ -1037,7 +1202,7 @@ func (g *c14Gen) emit(tag string, flags int, specs []c14Spec, ops ...*xt.T) {
 			ns++
 		}
 	}
-	g.cases = append(g.cases, Case{Tag: tag, Nontrivial: ns >= 1 && flags == 0 && len(ops) >= 2, C: xt.N(xt.LI(flags), bs, xt.N(ops...))})
+	g.cases = append(g.cases, Case{Tag: tag, Nontrivial: ns >= 1 && flags != 1 && len(ops) >= 2, C: xt.N(xt.LI(flags), bs, xt.N(ops...))})
 	g.ctx.Count("cases_" + tag)
 	g.ctx.Count(fmt.Sprintf("staged_branches_%d", ns))
 }
@@ -1068,6 +1233,14 @@ func (g *c14Gen) families(tag string, specs []c14Spec, full bool) {
 		g.ctx.Count("fault_positions_discard")
 		if full || g.ctx.Pick(3) == 0 {
 			g.emit(tag, 0, specs, g.opDF(1, n, k), g.opD(k), g.opD(k), g.opC(k))
+		}
+	}
+	// the status flip fails; one DELETE of Discard fails (SQL statement level)
+	g.emit(tag, 0, specs, g.opCT(2, 0, k), g.opC(k), g.opC(k), g.opD(k))
+	g.emit(tag, 0, specs, g.opDT(1, 0, k), g.opD(k), g.opC(k))
+	for victim := 0; victim < k; victim++ {
+		if full || g.ctx.Pick(2) == 0 {
+			g.emit(tag, 0, specs, g.opDT(0, victim, k), g.opD(k), g.opD(k), g.opC(k))
 		}
 	}
 	// a single SQL statement inside SetWithLog of each branch fails (below the ref.Store method)
@@ -1246,6 +1419,34 @@ func genC14(ctx *Ctx) []Case {
 			retable(specs)
 		}
 		g.families(fmt.Sprintf("rand%d", k), specs, ctx.Thorough())
+	}
+	// a ref that already carries TWO log entries with the transaction's id (hist 4): GetTransactionLogs must
+	// report the newest; Commit treats the branch as landed
+	g.families("relog", []c14Spec{S(4, 1, false, -1)}, true)
+	g.families("relog", []c14Spec{S(4, 1, false, -1), S(1, 2, false, -1)}, ctx.Thorough())
+	g.families("relog", []c14Spec{S(0, 1, false, 21), S(4, 2, false, -1)}, ctx.Thorough())
+	// the commands on a real repository directory
+	g.cliFamilies("cli", []c14Spec{S(1, 1, false, -1), S(0, 2, false, -1)}, true)
+	g.cliFamilies("cli", []c14Spec{S(3, 1, true, 21), S(2, 102, false, -1), S(1, -1, false, 22)}, false)
+	if ctx.Thorough() {
+		g.cliFamilies("cli", []c14Spec{S(4, 1, false, -1), S(1, 2, false, -1)}, true)
+		for _, a := range alpha[:5] {
+			for _, b := range alpha {
+				b2 := b
+				if b2.staged >= 0 {
+					b2.staged = 2
+				}
+				g.cliFamilies("cli", []c14Spec{a, b2}, false)
+			}
+		}
+		for r := 0; r < 8; r++ {
+			var specs []c14Spec
+			for i := 0; i < 3+r%2; i++ {
+				specs = append(specs, randSpec(i, i < 2))
+			}
+			retable(specs)
+			g.cliFamilies("cli", specs, false)
+		}
 	}
 	// transaction that was never created
 	for k := 1; k <= 2; k++ {
